@@ -80,3 +80,17 @@ Record copy_site := mkCopy {
   k_line : Z;
   k_detail : string
 }.
+
+(* how a copying function of the root package (runtime.clone, Otto.Copy, Otto.clone)
+   fills one field of the runtime / Otto value it builds *)
+Record clone_field := mkCloneField {
+  cf_type : string;    (* "otto.runtime" or "otto.Otto" *)
+  cf_field : string;
+  cf_ftype : string;
+  cf_ref : bool;       (* the field holds a pointer, map, slice, channel or interface (not a func) *)
+  cf_how : string;     (* "cloned": through the cloner / a clone method; "verbatim": read from the receiver as it is;
+                          "fresh": literal, local or new allocation; "zero": not mentioned *)
+  cf_func : string;
+  cf_file : string;
+  cf_line : Z
+}.
